@@ -352,6 +352,8 @@ SMALL_DOCS = [
 
 # the first-run defect that is still open (known finding): a [table] under an [[array]]
 AOT_SUBHEADER = [AH("a"), K("c", 3), H("a", "t"), K("a", 0)]
+# open finding: an [[array]] whose elements are separated by another section, set by the user
+SPLIT_AOT = [AH("b", "b"), H("b"), K("c", 4), AH("b", "b")]
 W15_AOT = [H("t"), K("a", 0), ("blank",), AH("u"), K("c", 0), ("blank",), AH("u"), K("c", 8)]
 
 
@@ -365,6 +367,9 @@ def corpus_pairs():
     yield build(W15_AOT), None
     yield build(AOT_SUBHEADER), None
     yield build(AOT_SUBHEADER), build([AH("a"), K("c", 0)])
+    yield build(SPLIT_AOT), build([AH("b", "b")])
+    yield build(SPLIT_AOT), build([H("b"), K("c", 2)])
+    yield build(SPLIT_AOT), None
     yield build([K("a", 0), H("t"), K("a", 0)], crlf=True), None
     yield build([K("a", 0), H("t"), K("a", 0)], crlf=True), build([H("t"), K("a", 2)], crlf=True)
     yield build([K("a", 0)], final_newline=False), build([K("a", 2)], final_newline=False)
